@@ -1368,9 +1368,15 @@ export class AllOfRuntype extends BaseRuntype {
       return annotateSchema(this.metadata, merged);
     }
 
-    // the members that could not be merged must not each forbid the properties the others declare
+    // closed object members forbid each other's properties: move the intersection into the alternatives of union
+    // members, where the objects can be merged
+    const distributed = distributeAllOfOverAnyOf(schemas);
+    if (distributed != null) {
+      return annotateSchema(this.metadata, distributed);
+    }
+
     return annotateSchema(this.metadata, {
-      allOf: schemas.map(openObjectSchema),
+      allOf: schemas,
     });
   }
   validate(ctx: ValidateContext, input: unknown): boolean {
@@ -1421,57 +1427,96 @@ export class AllOfRuntype extends BaseRuntype {
   }
 }
 
-const MERGEABLE_OBJECT_SCHEMA_KEYS = new Set(["type", "properties", "required", "additionalProperties"]);
+const MERGEABLE_OBJECT_SCHEMA_KEYS = new Set([
+  "type",
+  "properties",
+  "required",
+  "additionalProperties",
+  "propertyNames",
+]);
 
+// Merges object schemas (closed, or with an index signature printed as additionalProperties) into one object schema.
+// A property holds the schemas of every member that declares it and the index signature schema of every member that does not.
 function tryMergeAllOfObjectSchemas(schemas: JSONSchema7[]): JSONSchema7 | null {
-  const properties: Record<string, JSONSchema7Definition> = {};
+  const declaredBy: Record<string, JSONSchema7Definition[]> = {};
   const required = new Set<string>();
 
   for (const schema of schemas) {
-    if (!isMergeableClosedObjectSchema(schema)) {
+    if (!isMergeableObjectSchema(schema)) {
       return null;
     }
-
     for (const key of schema.required ?? []) {
       required.add(key);
     }
-
-    for (const [key, value] of Object.entries(schema.properties ?? {})) {
-      const existing = properties[key];
-      if (existing != null && !jsonSchemaDefinitionEquals(existing, value)) {
-        return null;
-      }
-      properties[key] = value;
+    for (const key of Object.keys(schema.properties ?? {})) {
+      declaredBy[key] = [];
     }
   }
+
+  for (const schema of schemas) {
+    const own = schema.properties ?? {};
+    for (const key of Object.keys(declaredBy)) {
+      const value = Object.prototype.hasOwnProperty.call(own, key) ? own[key] : schema.additionalProperties;
+      if (value == null || value === false) {
+        // not declared by this (closed) member: the other members decide
+        continue;
+      }
+      if (!declaredBy[key].some((it) => jsonSchemaDefinitionEquals(it, value))) {
+        declaredBy[key].push(value);
+      }
+    }
+  }
+
+  const properties: Record<string, JSONSchema7Definition> = {};
+  for (const [key, values] of Object.entries(declaredBy)) {
+    properties[key] = intersectSchemaDefinitions(values);
+  }
+  const indexSchemas = schemas
+    .map((it) => it.additionalProperties)
+    .filter((it): it is JSONSchema7Definition => it != null && it !== false);
 
   return {
     type: "object",
     ...(Object.keys(properties).length > 0 ? { properties } : {}),
     ...(required.size > 0 ? { required: [...required] } : {}),
-    additionalProperties: false,
+    additionalProperties: indexSchemas.length === 0 ? false : intersectSchemaDefinitions(indexSchemas),
   };
 }
 
-function openObjectSchema(schema: JSONSchema7): JSONSchema7 {
-  if (typeof schema !== "object" || schema == null) {
-    return schema;
+function intersectSchemaDefinitions(values: JSONSchema7Definition[]): JSONSchema7Definition {
+  if (values.length === 1) {
+    return values[0];
   }
-  const out: JSONSchema7 = { ...schema };
-  if (out.type === "object" && out.additionalProperties === false) {
-    delete out.additionalProperties;
+  if (values.every((it) => typeof it === "object")) {
+    const schemas = values as JSONSchema7[];
+    return tryMergeAllOfObjectSchemas(schemas) ?? distributeAllOfOverAnyOf(schemas) ?? { allOf: schemas };
   }
-  for (const key of ["anyOf", "oneOf", "allOf"] as const) {
-    const alternatives = out[key];
-    if (Array.isArray(alternatives)) {
-      out[key] = alternatives.map((it) => (typeof it === "object" ? openObjectSchema(it) : it));
-    }
-  }
-  return out;
+  return { allOf: values };
 }
 
-function isMergeableClosedObjectSchema(schema: JSONSchema7): boolean {
-  if (schema.type !== "object" || schema.additionalProperties !== false) {
+function distributeAllOfOverAnyOf(schemas: JSONSchema7[]): JSONSchema7 | null {
+  const alternatives = schemas.map((schema): JSONSchema7[] => {
+    const keys = Object.keys(schema).filter((it) => it !== "discriminator" && !(it === "type" && schema.type === "object"));
+    if (keys.length === 1 && Array.isArray(schema.anyOf) && schema.anyOf.every((it) => typeof it === "object")) {
+      return schema.anyOf as JSONSchema7[];
+    }
+    return [schema];
+  });
+  const total = alternatives.reduce((acc, it) => acc * it.length, 1);
+  if (total <= 1 || total > 64) {
+    return null;
+  }
+  let combinations: JSONSchema7[][] = [[]];
+  for (const alts of alternatives) {
+    combinations = combinations.flatMap((prefix) => alts.map((it) => [...prefix, it]));
+  }
+  return {
+    anyOf: combinations.map((members) => tryMergeAllOfObjectSchemas(members) ?? { allOf: members }),
+  };
+}
+
+function isMergeableObjectSchema(schema: JSONSchema7): boolean {
+  if (schema.type !== "object" || schema.additionalProperties == null || schema.additionalProperties === true) {
     return false;
   }
 
@@ -1479,6 +1524,11 @@ function isMergeableClosedObjectSchema(schema: JSONSchema7): boolean {
     if (!MERGEABLE_OBJECT_SCHEMA_KEYS.has(key)) {
       return false;
     }
+  }
+  // only the vacuous key constraint of a string index signature can be dropped
+  const names = schema.propertyNames;
+  if (names != null && !(typeof names === "object" && Object.keys(names).length === 1 && names.type === "string")) {
+    return false;
   }
 
   if (schema.properties != null && typeof schema.properties !== "object") {
